@@ -614,6 +614,11 @@ pub fn replay_bounded(unit: &str) -> Option<i32> {
         "b_c07_named_bits" => run_grid(unit, contract_named_bits, limit),
         "b_generate_constructed" => run_grid(unit, contract_generate_constructed, limit),
         "b_c04_component_bounds" => run_grid(unit, contract_generate_component_bounds, limit),
+        "b_generate_enumerated" => run_grid(unit, contract_generate_enumerated, limit),
+        "b_c06_int_type_serial" => run_grid(unit, contract_int_type_serial, limit),
+        "b_sequence_parser" => run_grid(unit, crate::lexer::verif_hook_sequence::contract_sequence_parser, limit),
+        "b_c07_struct_value_defaults" => run_grid(unit, contract_struct_value_defaults, limit),
+        "b_c04_named_number_lookup" => run_grid(unit, crate::validator::verif_hook_utils::contract_named_number_lookup, limit),
         "b_c02_recursion_marking" => run_grid(unit, contract_recursion_marking, limit),
         "b_c04_value_references" => run_grid(unit, contract_constraint_value_references, limit),
         "b_c04_integer_set_expression" => run_grid(unit, contract_integer_set_expression, limit),
@@ -685,8 +690,9 @@ pub fn contract_integer_set_expression<C: Ctx>(cx: &mut C) {
         member = Box::new(move |v| match o1 { 0 => ia.contains(v) || mrest(v), 1 => ia.contains(v) && mrest(v), _ => ia.contains(v) && !mrest(v) });
         set = ElementOrSetOperation::SetOperation(SetOperation { base: a, operator: ops[o1].clone(), operant: Box::new(rest) });
     }
-    let constraint = Constraint::Subtype(ElementSetSpecs { set, extensible: false });
-    cx.describe(|| format!("expr={}", render_set(match &constraint { Constraint::Subtype(s) => &s.set, _ => unreachable!() })));
+    let outer_marker = cx.any_bool();
+    let constraint = Constraint::Subtype(ElementSetSpecs { set, extensible: outer_marker });
+    cx.describe(|| format!("expr=({}){}", render_set(match &constraint { Constraint::Subtype(s) => &s.set, _ => unreachable!() }), if outer_marker { " followed by `, ...`" } else { "" }));
     let folded: Result<PerVisibleRangeConstraints, _> = (&constraint).try_into();
     match folded {
         Ok(r) => {
@@ -706,7 +712,8 @@ pub fn contract_integer_set_expression<C: Ctx>(cx: &mut C) {
             vob!(cx, "C04.fold.never_excludes_a_permitted_value", ok);
             vob!(cx, "C04.fold.lower_bound_is_per_visible_effective", got.lo == reference.lo);
             vob!(cx, "C04.fold.upper_bound_is_per_visible_effective", got.hi == reference.hi);
-            vob!(cx, "C04.fold.not_flagged_extensible_without_marker", !r.is_extensible());
+            // flagged extensible exactly when the constraint carries an extension marker (operands carry none here)
+            vob!(cx, "C04.fold.extensible_iff_the_constraint_carries_a_marker", (got.lo.is_none() && got.hi.is_none()) || r.is_extensible() == outer_marker);
         }
         Err(_) => { vob!(cx, "C04.fold.folds_without_error", false); }
     }
@@ -801,11 +808,26 @@ pub fn contract_generate_constructed<C: Ctx>(cx: &mut C) {
         };
         let header = |name: &str, env, implied: bool| Rc::new(RefCell::new(ModuleHeader { name: name.into(), module_identifier: None, encoding_reference_default: None, tagging_environment: env,
             extensibility_environment: if implied { ExtensibilityEnvironment::Implied } else { ExtensibilityEnvironment::Explicit }, imports: vec![], exports: None }));
-        let tld = |h: &Rc<RefCell<ModuleHeader>>, ty: &ASN1Type| ToplevelDefinition::Type(ToplevelTypeDefinition { comments: String::new(), tag: None, name: "T".into(), ty: ty.clone(), parameterization: None, module_header: Some(h.clone()) });
-        cx.describe(|| format!("module_default={env:?} extensibility_implied={implied} kind={} components={n} first_addition_index={extensible:?} optional={:?} tagged={:?}", ["SEQUENCE", "SET", "CHOICE"][kind], &optional[..n], &tagged[..n]));
+        // optionally component f0 is an anonymous SEQUENCE { x BOOLEAN } that has to be hoisted into an item of its own
+        let nested = cx.any_bool();
+        let ty = if nested {
+            let inner = ASN1Type::Sequence(SequenceOrSet { components_of: vec![], extensible: None, constraints: vec![], members: vec![SequenceOrSetMember { name: "x".into(), tag: None, ty: ASN1Type::Boolean(Boolean { constraints: vec![] }), optionality: Optionality::Required, is_recursive: false, constraints: vec![] }] });
+            match ty {
+                ASN1Type::Choice(mut c) => { c.options[0].ty = inner; ASN1Type::Choice(c) }
+                ASN1Type::Sequence(mut s) => { s.members[0].ty = inner; ASN1Type::Sequence(s) }
+                ASN1Type::Set(mut s) => { s.members[0].ty = inner; ASN1Type::Set(s) }
+                other => other,
+            }
+        } else { ty };
+        let top_tagged = cx.any_bool();
+        // the tag of the type assignment, as it looks after apply_tagging_environment (keyword-less tag in a module with default `env`)
+        let top_tag = if top_tagged { Some(AsnTag { environment: env, tag_class: TagClass::Application, id: 3 }) } else { None };
+        let tld_with = |h: &Rc<RefCell<ModuleHeader>>, ty: &ASN1Type, tag: Option<AsnTag>| ToplevelDefinition::Type(ToplevelTypeDefinition { comments: String::new(), tag, name: "T".into(), ty: ty.clone(), parameterization: None, module_header: Some(h.clone()) });
+        let tld = |h: &Rc<RefCell<ModuleHeader>>, ty: &ASN1Type| tld_with(h, ty, None);
+        cx.describe(|| format!("module_default={env:?} extensibility_implied={implied} kind={} f0_is_anonymous_sequence={nested} type_assignment_tagged={top_tagged} components={n} first_addition_index={extensible:?} optional={:?} tagged={:?}", ["SEQUENCE", "SET", "CHOICE"][kind], &optional[..n], &tagged[..n]));
         let h = header("M", env, implied);
         let mut backend = crate::generator::rasn::Rasn::default();
-        let out = backend.generate_module(vec![tld(&h, &ty)]);
+        let out = backend.generate_module(vec![tld_with(&h, &ty, top_tag)]);
         let generated = match out { Ok(m) if m.warnings.is_empty() => m.generated.unwrap_or_default(), _ => { vob!(cx, "C02.generate.constructed_type_is_generated", false); return; } };
         let Some((attrs, fields)) = item_of(&generated, "T") else { vob!(cx, "C02.generate.constructed_type_is_generated", false); return; };
         // C02: exactly one field / variant per component, in source order
@@ -818,7 +840,7 @@ pub fn contract_generate_constructed<C: Ctx>(cx: &mut C) {
         if !in_order { return; }
         let mut opt_ok = true; let mut ext_ok = true; let mut tag_ok = true;
         for (i, f) in fields.iter().enumerate() {
-            if kind != 2 { opt_ok = opt_ok && (f.contains(": Option < bool >") == optional[i]) && (optional[i] || f.ends_with(": bool")); }
+            if kind != 2 && !(nested && i == 0) { opt_ok = opt_ok && (f.contains(": Option < bool >") == optional[i]) && (optional[i] || f.ends_with(": bool")); }
             let is_addition = extensible.map_or(false, |k| i >= k);
             ext_ok = ext_ok && (f.contains("extension_addition") == is_addition);
             let explicit_form = format!("tag (explicit (context , {}))", 10 + i);
@@ -826,10 +848,24 @@ pub fn contract_generate_constructed<C: Ctx>(cx: &mut C) {
             tag_ok = tag_ok && if !tagged[i] { !f.contains("tag (") } else if env == TaggingEnvironment::Explicit { f.contains(&explicit_form) } else { f.contains(&implicit_form) && !f.contains("explicit") };
         }
         vob!(cx, "C02.generate.optional_components_are_option", opt_ok);
+        if nested {
+            // the anonymous type is generated as an item of its own, keeps its component, and inherits the module's defaults
+            let hoisted = item_of(&generated, "TF0");
+            vob!(cx, "C02.generate.anonymous_nested_type_is_hoisted_with_its_components", matches!(&hoisted, Some((_, fs)) if fs.len() == 1 && fs[0].contains("pub x : bool")) && fields[0].contains("TF0"));
+            if let Some((inner_attrs, _)) = &hoisted {
+                vob!(cx, "C05.generate.nested_type_extensible_iff_extensibility_implied", inner_attrs.contains("non_exhaustive") == implied);
+                vob!(cx, "C03.generate.nested_type_automatic_tags_iff_automatic_module", inner_attrs.contains("automatic_tags") == (env == TaggingEnvironment::Automatic));
+            }
+        }
         vob!(cx, "C05.generate.extension_additions_exactly_after_the_marker", ext_ok);
         vob!(cx, "C03.generate.tag_rendered_with_class_number_and_mode", tag_ok);
         vob!(cx, "C02.generate.set_is_marked_as_set", attrs.contains("rasn (set") == (kind == 1) || attrs.contains(", set") == (kind == 1));
         vob!(cx, "C05.generate.extensible_iff_marker_or_extensibility_implied", attrs.contains("non_exhaustive") == (extensible.is_some() || implied));
+        // X.680 §31.2.7: the tag on the assignment is explicit in an EXPLICIT TAGS module, and always when the tagged type is a CHOICE (clause c)
+        let top_explicit = "tag (explicit (application , 3))";
+        let top_implicit = "tag (application , 3)";
+        vob!(cx, "C03.generate.type_assignment_tag_mode_and_tagged_choice_is_explicit",
+            if !top_tagged { !attrs.contains("application") } else if kind == 2 || env == TaggingEnvironment::Explicit { attrs.contains(top_explicit) } else { attrs.contains(top_implicit) && !attrs.contains(top_explicit) });
         let any_tagged = (0..n).any(|i| tagged[i]);
         vob!(cx, "C03.generate.automatic_tags_iff_automatic_module_and_no_component_tagged", attrs.contains("automatic_tags") == (env == TaggingEnvironment::Automatic && !any_tagged));
         // C05: the extensibility default is the one of the type's own module — compile a marker-less type of another module on the same backend
@@ -1002,12 +1038,16 @@ pub fn contract_generate_component_bounds<C: Ctx>(cx: &mut C) {
         use std::{cell::RefCell, rc::Rc};
         let by_reference = cx.any_bool();
         let in_choice = cx.any_bool();
+        let size = cx.any_bool();   // SIZE(..) on an OCTET STRING component instead of a value range on an INTEGER
         let lo = [Some(-5i128), Some(0), Some(3), None][cx.choose(4)];
         let hi = [Some(5i128), None][cx.choose(2)];
         let ext = cx.any_bool();
         if !cx.assume(lo.is_some() || hi.is_some()) { return; }
-        let c = Constraint::Subtype(ElementSetSpecs { set: ElementOrSetOperation::Element(SubtypeElements::ValueRange { min: lo.map(ASN1Value::Integer), max: hi.map(ASN1Value::Integer), extensible: ext }), extensible: false });
-        let ty = if by_reference { ASN1Type::ElsewhereDeclaredType(DeclarationElsewhere { parent: None, module: None, identifier: "MyInt".into(), constraints: vec![c] }) }
+        if !cx.assume(!size || matches!(lo, Some(0) | Some(3))) { return; }
+        let range = SubtypeElements::ValueRange { min: lo.map(ASN1Value::Integer), max: hi.map(ASN1Value::Integer), extensible: ext };
+        let c = Constraint::Subtype(ElementSetSpecs { set: ElementOrSetOperation::Element(if size { SubtypeElements::SizeConstraint(Box::new(ElementOrSetOperation::Element(range))) } else { range }), extensible: false });
+        let ty = if by_reference { ASN1Type::ElsewhereDeclaredType(DeclarationElsewhere { parent: None, module: None, identifier: "MyType".into(), constraints: vec![c] }) }
+                 else if size { ASN1Type::OctetString(OctetString { constraints: vec![c] }) }
                  else { ASN1Type::Integer(Integer { constraints: vec![c], distinguished_values: None }) };
         let outer = if in_choice {
             ASN1Type::Choice(Choice { extensible: None, constraints: vec![], options: vec![ChoiceOption { name: "f0".into(), tag: None, ty, constraints: vec![], is_recursive: false }] })
@@ -1016,14 +1056,163 @@ pub fn contract_generate_component_bounds<C: Ctx>(cx: &mut C) {
         };
         let h = Rc::new(RefCell::new(ModuleHeader { name: "M".into(), module_identifier: None, encoding_reference_default: None, tagging_environment: TaggingEnvironment::Automatic, extensibility_environment: ExtensibilityEnvironment::Explicit, imports: vec![], exports: None }));
         let tld = ToplevelDefinition::Type(ToplevelTypeDefinition { comments: String::new(), tag: None, name: "T".into(), ty: outer, parameterization: None, module_header: Some(h) });
-        cx.describe(|| format!("component_type={} in={} constraint=({}..{}{})", if by_reference { "MyInt (type reference)" } else { "INTEGER" }, if in_choice { "CHOICE" } else { "SEQUENCE" },
-            lo.map_or("MIN".to_string(), |v| v.to_string()), hi.map_or("MAX".to_string(), |v| v.to_string()), if ext { ", ..." } else { "" }));
+        cx.describe(|| format!("component_type={} in={} constraint=({}{}..{}{}{})", if by_reference { "MyType (type reference)" } else if size { "OCTET STRING" } else { "INTEGER" }, if in_choice { "CHOICE" } else { "SEQUENCE" },
+            if size { "SIZE(" } else { "" }, lo.map_or("MIN".to_string(), |v| v.to_string()), hi.map_or("MAX".to_string(), |v| v.to_string()), if ext { ", ..." } else { "" }, if size { ")" } else { "" }));
         let mut backend = crate::generator::rasn::Rasn::default();
         let generated = match backend.generate_module(vec![tld]) { Ok(m) if m.warnings.is_empty() => m.generated.unwrap_or_default(), _ => { vob!(cx, "C04.generate.constrained_component_is_generated", false); return; } };
         let Some((_, fields)) = item_of(&generated, "T") else { vob!(cx, "C04.generate.constrained_component_is_generated", false); return; };
         let range = match (lo, hi) { (Some(l), Some(h)) => format!("{l}..={h}"), (Some(l), None) => format!("{l}.."), (None, Some(h)) => format!("..={h}"), _ => String::new() };
-        let want = if ext { format!("value (\"{range}\" , extensible)") } else { format!("value (\"{range}\")") };
-        vob!(cx, "C04.generate.component_value_annotation_is_the_constraint_range", fields.len() == 1 && fields[0].contains(&want));
+        let kw = if size { "size" } else { "value" };
+        let want = if ext { format!("{kw} (\"{range}\" , extensible)") } else { format!("{kw} (\"{range}\")") };
+        if size && lo == Some(0) && hi.is_none() && !ext {
+            // SIZE(0..MAX) without marker is the default and may be left out
+            vob!(cx, "C04.generate.component_size_annotation_is_the_constraint_range", fields.len() == 1 && (fields[0].contains(&want) || !fields[0].contains("size (")));
+        } else if size {
+            vob!(cx, "C04.generate.component_size_annotation_is_the_constraint_range", fields.len() == 1 && fields[0].contains(&want));
+        } else {
+            vob!(cx, "C04.generate.component_value_annotation_is_the_constraint_range", fields.len() == 1 && fields[0].contains(&want));
+        }
+    }
+    #[cfg(kani)]
+    { let _ = cx; }
+}
+
+
+// ------------------------------------------------------------------------------------------------
+// C14 / C05 / C16-adjacent — emission of ENUMERATED types (generator/rasn: generate_enumerated -> format_enum_members):
+// one variant per enumeral in order, discriminant = the assigned number, extension_addition exactly after the marker,
+// and the original identifier recorded whenever the Rust variant name differs from it.
+// ------------------------------------------------------------------------------------------------
+pub fn contract_generate_enumerated<C: Ctx>(cx: &mut C) {
+    #[cfg(not(kani))]
+    {
+        use crate::intermediate::types::*;
+        use crate::generator::Backend;
+        use std::{cell::RefCell, rc::Rc};
+        const POOL: [&str; 6] = ["alpha", "with-hyphen", "move", "type", "b2", "loop"];
+        const NUMBERS: [i128; 6] = [5, -1, 0, 7, 2, 300];
+        let n = 1 + cx.choose(4);
+        let start = cx.choose(6);
+        let ext = cx.choose(n + 2);
+        let extensible = if ext == 0 { None } else { Some(ext - 1) };
+        let members: Vec<Enumeral> = (0..n).map(|i| Enumeral { name: POOL[(start + i) % 6].into(), description: None, index: NUMBERS[(start + 2 * i) % 6] + i as i128 * 1000 }).collect();
+        cx.describe(|| format!("enumerals={:?} first_addition_index={extensible:?}", members.iter().map(|m| format!("{}({})", m.name, m.index)).collect::<Vec<_>>()));
+        let ty = ASN1Type::Enumerated(Enumerated { members: members.clone(), extensible, constraints: vec![] });
+        let h = Rc::new(RefCell::new(ModuleHeader { name: "M".into(), module_identifier: None, encoding_reference_default: None, tagging_environment: TaggingEnvironment::Automatic, extensibility_environment: ExtensibilityEnvironment::Explicit, imports: vec![], exports: None }));
+        let tld = ToplevelDefinition::Type(ToplevelTypeDefinition { comments: String::new(), tag: None, name: "T".into(), ty, parameterization: None, module_header: Some(h) });
+        let mut backend = crate::generator::rasn::Rasn::default();
+        let generated = match backend.generate_module(vec![tld]) { Ok(m) if m.warnings.is_empty() => m.generated.unwrap_or_default(), _ => { vob!(cx, "C14.generate.enumerated_is_generated", false); return; } };
+        let Some((attrs, variants)) = item_of(&generated, "T") else { vob!(cx, "C14.generate.enumerated_is_generated", false); return; };
+        vob!(cx, "C14.generate.one_variant_per_enumeral", variants.len() == n);
+        if variants.len() != n { return; }
+        let mut numbers_ok = true; let mut ident_ok = true; let mut ext_ok = true;
+        for (i, v) in variants.iter().enumerate() {
+            // `[# [rasn (...)]] <Name> = <number>`
+            let decl = match v.rfind(']') { Some(p) => v[p + 1..].trim(), None => v.trim() };
+            let mut parts = decl.split('=');
+            let rust_name = parts.next().unwrap_or("").trim().to_string();
+            let number = parts.next().unwrap_or("").replace(' ', "");
+            numbers_ok = numbers_ok && number == members[i].index.to_string();
+            let annotation = format!("identifier = \"{}\"", members[i].name);
+            ident_ok = ident_ok && !rust_name.is_empty() && (v.contains(&annotation) == (rust_name != members[i].name));
+            ext_ok = ext_ok && (v.contains("extension_addition") == extensible.map_or(false, |k| i >= k));
+        }
+        vob!(cx, "C14.generate.discriminant_is_the_assigned_number_in_order", numbers_ok);
+        vob!(cx, "C14.generate.original_identifier_recorded_when_renamed", ident_ok);
+        vob!(cx, "C05.generate.enumerated_additions_exactly_after_the_marker", ext_ok);
+        vob!(cx, "C05.generate.enumerated_extensible_iff_marker", attrs.contains("non_exhaustive") == extensible.is_some());
+    }
+    #[cfg(kani)]
+    { let _ = cx; }
+}
+
+// ------------------------------------------------------------------------------------------------
+// C07 — SEQUENCE / SET values: `ASN1Value::link_with_type` -> link_struct_like: a component written in the value
+// keeps the written value, an omitted component with DEFAULT takes the default, in the order of the type.
+// ------------------------------------------------------------------------------------------------
+pub fn contract_struct_value_defaults<C: Ctx>(cx: &mut C) {
+    #[cfg(not(kani))]
+    {
+        use crate::intermediate::types::*;
+        use std::collections::BTreeMap;
+        let n = 1 + cx.choose(3);
+        let mut has_default = [false; 3];
+        let mut written = [false; 3];
+        for i in 0..n {
+            has_default[i] = cx.any_bool();
+            written[i] = cx.any_bool();
+            // a component without DEFAULT must be written
+            if !cx.assume(has_default[i] || written[i]) { return; }
+        }
+        let reversed = cx.any_bool(); // components written in reverse order (SET values may do that)
+        let members: Vec<SequenceOrSetMember> = (0..n).map(|i| SequenceOrSetMember { name: format!("c{i}"), tag: None, ty: ASN1Type::Boolean(Boolean { constraints: vec![] }),
+            optionality: if has_default[i] { Optionality::Default(ASN1Value::Boolean(false)) } else { Optionality::Required }, is_recursive: false, constraints: vec![] }).collect();
+        let ty = ASN1Type::Sequence(SequenceOrSet { components_of: vec![], extensible: None, constraints: vec![], members });
+        let mut fields: Vec<(Option<String>, Box<ASN1Value>)> = (0..n).filter(|i| written[*i]).map(|i| (Some(format!("c{i}")), Box::new(ASN1Value::Boolean(true)))).collect();
+        if reversed { fields.reverse(); }
+        cx.describe(|| format!("components={n} has_default={:?} written={:?} written_in_reverse_order={reversed}", &has_default[..n], &written[..n]));
+        let mut v = ASN1Value::SequenceOrSet(fields);
+        let tlds = BTreeMap::new();
+        let name = String::from("T");
+        let r = v.link_with_type(&tlds, &ty, Some(&name));
+        vob!(cx, "C07.struct_value.links", r.is_ok());
+        match &v {
+            ASN1Value::LinkedStructLikeValue(fs) => {
+                vob!(cx, "C07.struct_value.one_field_per_component_in_type_order", fs.len() == n && fs.iter().enumerate().all(|(i, f)| f.0 == format!("c{i}")));
+                let mut ok = fs.len() == n;
+                for (i, f) in fs.iter().enumerate().take(n) {
+                    // written components are TRUE, defaults are FALSE
+                    let want = written[i];
+                    ok = ok && matches!(f.2.value(), ASN1Value::Boolean(b) if *b == want);
+                }
+                vob!(cx, "C07.struct_value.written_value_wins_over_default", ok);
+            }
+            _ => { vob!(cx, "C07.struct_value.becomes_a_linked_struct_value", false); }
+        }
+    }
+    #[cfg(kani)]
+    { let _ = cx; }
+}
+
+
+// ------------------------------------------------------------------------------------------------
+// C06 — `Integer::int_type` (intermediate/types.rs): the fold over serially applied constraints that picks the width
+// of type assignments, SEQUENCE OF element newtypes and constants.  Iterator fold (outside Verus), AST with i128
+// (outside Kani) -> bounded stand-in (native): 1..=2 serial range constraints over the width boundaries.
+// ------------------------------------------------------------------------------------------------
+pub fn contract_int_type_serial<C: Ctx>(cx: &mut C) {
+    #[cfg(not(kani))]
+    {
+        use crate::intermediate::constraints::*;
+        use crate::intermediate::types::*;
+        const PTS: [i128; 8] = [-129, -128, 0, 10, 255, 256, 65535, 70000];
+        let n = 1 + cx.choose(2);
+        let mut lo = i128::MIN; let mut hi = i128::MAX; let mut any_marker = false;
+        let mut cs = vec![];
+        let mut text = String::from("INTEGER");
+        for _ in 0..n {
+            let l = PTS[cx.choose(8)];
+            let h = PTS[cx.choose(8)];
+            if !cx.assume(l <= h) { return; }
+            let elem_ext = cx.any_bool();
+            let outer = cx.any_bool();
+            cs.push(Constraint::Subtype(ElementSetSpecs { set: ElementOrSetOperation::Element(SubtypeElements::ValueRange { min: Some(ASN1Value::Integer(l)), max: Some(ASN1Value::Integer(h)), extensible: elem_ext }), extensible: outer }));
+            text.push_str(&format!(" ({}{l}..{h}{}{}{})", if outer { "(" } else { "" }, if elem_ext { ", ..." } else { "" }, if outer { ")" } else { "" }, if outer { ", ..." } else { "" }));
+            lo = lo.max(l); hi = hi.min(h);
+            any_marker = any_marker || elem_ext || outer;
+        }
+        if !cx.assume(lo <= hi) { return; }
+        cx.describe(|| format!("serial_constraints={n} {text}"));
+        let t = Integer { constraints: cs, distinguished_values: None }.int_type();
+        let fits = |t: IntegerType| match t {
+            IntegerType::Uint8 => 0 <= lo && hi <= 255, IntegerType::Int8 => -128 <= lo && hi <= 127,
+            IntegerType::Uint16 => 0 <= lo && hi <= 65535, IntegerType::Int16 => -32768 <= lo && hi <= 32767,
+            IntegerType::Uint32 => 0 <= lo && hi <= 4294967295, IntegerType::Int32 => -2147483648 <= lo && hi <= 2147483647,
+            IntegerType::Uint64 => 0 <= lo && hi <= 18446744073709551615, IntegerType::Int64 => -9223372036854775808 <= lo && hi <= 9223372036854775807,
+            IntegerType::Unbounded => true,
+        };
+        vob!(cx, "C06.int_type.holds_every_permitted_value", fits(t));
+        vob!(cx, "C06.int_type.fixed_width_only_without_extension_marker", t == IntegerType::Unbounded || !any_marker);
     }
     #[cfg(kani)]
     { let _ = cx; }
